@@ -23,7 +23,42 @@ def cases(tier):
     return cs
 
 
+def run_bs(ctx, case):
+    """bootstrap: group turnout = sum of unit turnouts; group margin * group turnout = sum of unit margins (no race calls)"""
+    from . import bs as BS
+
+    r = BS.run_bs_client(ctx, case)
+    sc, res = r.sc, r.res
+    cats = {u.fips: c01.classify(sc, u, case) for u in sc.units}
+    ud = res["unit_data"].set_index("geographic_unit_fips")
+    obl = []
+    for table in c01.LEVELS:
+        if table not in res:
+            continue
+        lcols = c01.level_cols(case, table)
+        tab = res[table]
+        groups = c01.expected_groups(sc, case, lcols, cats)
+        keys = [tuple(k) for k in tab[lcols].itertuples(index=False, name=None)]
+        obl.append(("%s has exactly the expected groups" % table, sorted(keys) == sorted(groups)))
+        for i, key in enumerate(keys):
+            g = groups.get(key)
+            if g is None:
+                continue
+            ids = sorted(u.fips for u in g["counted"])
+            pt, pm = tab["pred_turnout"].iloc[i], tab["pred_margin"].iloc[i]
+            if sym.is_special(pt) or sym.is_special(pm):
+                obl.append(("%s %s: prediction is a number" % (table, "/".join(key)), False))
+                continue
+            obl.append(("%s %s: predicted turnout = sum of its units' predicted turnout" % (table, "/".join(key)),
+                        AEQ(pt, P.csum(ud.loc[f, "pred_turnout"] for f in ids))))
+            obl.append(("%s %s: predicted margin x predicted turnout = sum of its units' predicted margins" % (table, "/".join(key)),
+                        AEQ(pm * pt, P.csum(ud.loc[f, "pred_margin"] for f in ids))))
+    return obl, P.tables_out(res)
+
+
 def run(ctx, case):
+    if case["pi"] == "bootstrap":
+        return run_bs(ctx, case)
     r = P.run_client(ctx, case)
     sc, res = r.sc, r.res
     policy = case.get("handle_unreporting", "drop")
